@@ -1,0 +1,32 @@
+//! Configuration-plumbing hooks: the real constructors (`Service::spawn`, `Handler::spawn`) record
+//! the `Config` they were handed, so that a harness which starts a node through the public API
+//! (`ConfigBuilder` -> `Discv5::new` -> `Discv5::start`) can compare what the application
+//! configured with what reached each component.
+use crate::Config;
+use parking_lot::Mutex;
+
+static SEEN: Mutex<Vec<(&'static str, Config)>> = Mutex::new(Vec::new());
+
+/// Called by the real constructors.
+pub(crate) fn seen(component: &'static str, config: &Config) {
+    SEEN.lock().push((component, config.clone()));
+}
+
+/// Drains the record: (component, the configuration it was handed), in construction order.
+pub fn take_seen() -> Vec<(&'static str, Config)> {
+    std::mem::take(&mut *SEEN.lock())
+}
+
+/// The content of the process-wide permit/ban list: (permitted ips, permitted node ids,
+/// banned ips without / with expiry, banned node ids without / with expiry).
+pub fn permit_ban_counts() -> [usize; 6] {
+    let l = crate::discv5::PERMIT_BAN_LIST.read();
+    [
+        l.permit_ips.len(),
+        l.permit_nodes.len(),
+        l.ban_ips.values().filter(|t| t.is_none()).count(),
+        l.ban_ips.values().filter(|t| t.is_some()).count(),
+        l.ban_nodes.values().filter(|t| t.is_none()).count(),
+        l.ban_nodes.values().filter(|t| t.is_some()).count(),
+    ]
+}
